@@ -1087,6 +1087,7 @@ impl CompilerContext<'_> {
     /// which should occur during both compilation and decompilation (but which does not
     /// have any other obvious time to be performed).
     pub fn validate_defs(&self) -> Result<(), ErrorReported> {
+        self.diff_flag_defs.validate().map_err(|e| self.emitter.emit(e))?;
         self.validate_mapfile_signatures()
     }
 
